@@ -232,6 +232,9 @@ func verifyFunc(prog *Program, specs *SpecSet, sp *FuncSpec) (res *FuncResult) {
 	}
 	c := newCtx(prog, specs, mode)
 	c.curProp = sp.Property
+	if curCheckID != "" {
+		c.curProp = curCheckID
+	}
 	c.closedHeap = wantsClosedHeap(sp)
 	res.Ctx = c
 	if sp.Flags["strings"] == "on" {
